@@ -219,6 +219,18 @@ def run(rep, tier, seed):
                     oracle_grid(f"Rodas/{scheme}", sl, tspan, None, False, fails, case)
                 except Exception:  # noqa — raising is a reported failure
                     pass
+    # ---- a very short span with a non-terminal event a few ulp-of-one (1e-16) before tend: 'at tend' is not 'within 2.2e-16 of tend'
+    for span in (1e-9, 3e-10):
+        for tspan in ([0.0, span], [float(x) for x in np.linspace(0.0, span, 11)]):
+            for scheme in ("rodas4", "rodas5p"):
+                c_ev = span - 1e-16
+                case = dict(problem="y'=-y", scheme=scheme, tspan=tspan if len(tspan) == 2 else [0.0, "...", span, 11], event=f"t - ({span} - 1e-16), non-terminal")
+                try:
+                    sl = RC.quiet(Rodas, rest, tspan, np.array([1.0]),
+                                  Opt(scheme=scheme, event=lambda t, y, c=c_ev: (np.array([t - c]), np.array([False]), np.array([0.0]))))
+                    oracle_grid(f"Rodas/{scheme}", sl, tspan, None, False, fails, case)
+                except Exception as ex:  # noqa
+                    fails.append((case, f"Rodas/{scheme} raised {type(ex).__name__}: {str(ex)[:80]}"))
     # ---- ode15s has no event location: an event function must be refused, not answered with None
     try:
         r_ev = RC.quiet(ode15s, rest, [0.0, 1.0], np.array([1.0]), Opt(event=lambda t, y: (np.array([y[0] - 0.5]), np.array([False]), np.array([0.0]))))
